@@ -180,9 +180,61 @@ def lexer_cover(f):
     return None
 
 
+def pipeline_agrees(f):
+    """The public pipeline (CellTranslator over a workbook holding the text) must do exactly what its pieces do on the same text:
+    Lexer.parse -> AstBuilder.parse -> EntryPointTokenTranslator.translate.  Same emitted code, or the same exception class; a text the
+    parser rejects must not come out of the pipeline as a value, and an accepted one must not be translated from anything but its tree."""
+    from excel2pycl.src.lexer import Lexer
+    from excel2pycl.src.ast_builder import AstBuilder
+    from excel2pycl.src.translators.entry_point_token_translator import EntryPointTokenTranslator
+    sheets = [('S', {'A1': 1, 'B2': 2, 'H9': f}), ('My Sheet', {'B3': 3}), ('Data', {'C4': 4})]
+
+    def pieces():
+        ex = I.mkexcel(sheets)
+        ctx = I.Context()
+        ctx._titles = ex.get_titles()
+        ctx._sheets_size = ex.get_sheets_size()
+        cell = I.Cell(0, 7, 8)
+        ex.fill_cell(cell)
+        ctx._cells_in_progress.add(cell.uid)
+        toks = Lexer.parse(cell.value, in_cell=cell)
+        return EntryPointTokenTranslator.translate(AstBuilder.parse(toks, in_cell=cell), ex, ctx)
+
+    def pipeline():
+        ex = I.mkexcel(sheets)
+        ctx = I.Context()
+        ctx._titles = ex.get_titles()
+        ctx._sheets_size = ex.get_sheets_size()
+        I.CellTranslator.translate(I.Cell(0, 7, 8), ex, ctx)
+        return ctx._cell_translations['_0_7_8']
+
+    def outcome(fn):
+        try:
+            return ('code', fn())
+        except Timeout:
+            raise
+        except RecursionError:
+            return ('exc', 'RecursionError')
+        except Exception as e:  # noqa
+            return ('exc', type(e).__name__)
+    signal.signal(signal.SIGALRM, _alarm)
+    signal.alarm(20)
+    try:
+        a = outcome(pieces)
+        b = outcome(pipeline)
+    finally:
+        signal.alarm(0)
+    if a != b:
+        return 'the pipeline does not translate the text as its lexer, parser and entry-point translator do: pieces give %r, Parser/CellTranslator gives %r' % (
+            a if a[0] == 'exc' else ('code', a[1][:80]), b if b[0] == 'exc' else ('code', b[1][:80]))
+    return None
+
+
 def make_case(rc):
     f = rc['formula']
     term, sig, fail = analyse(f)
+    if fail is None and sig[0] != 'foreign':
+        fail = pipeline_agrees(f)
     if fail is None and sig[0] == 'parsed':
         fail = lexer_cover(f)
     if fail is None and rc.get('nl_of'):
@@ -218,7 +270,8 @@ def run(R, tier):
     per = 3 if tier == 'quick' else 40
     recipes = [{'formula': f} for f in BASE]
     recipes += [{'formula': f, 'mutated': True} for f in ['=1+2)', '=1 2', '="a""b"', '=SUM(1,2)3', '=(1+2', '=1+', '=IF(1,2', '=ROUND(1,2,3)', '=1 ', '=', '=*1',
-                                                             '=SUM()', '=SUM(A1;;A2)', '=MAX', '=TODAY(', '=1+SUM(A1:A2', '=FOO(1)', '=A1+B1\n+A2', '=SUM(A1,B1)\n*B2']]
+                                                             '=SUM()', '=SUM(A1;;A2)', '=MAX', '=TODAY(', '=1+SUM(A1:A2', '=FOO(1)', '=A1+B1\n+A2', '=SUM(A1,B1)\n*B2',
+                                                             '="ab"&"cd"', '="ab" "cd"', '="ab"="cd"', '="ab";"cd"', '="ab"&A1&"cd"']]
     recipes += [x['witness'] for x in C.known_findings()['findings'] if x['property'] == 'C05']
     for f in BASE:
         for _ in range(per):
